@@ -13,7 +13,7 @@ OPTS = [("host-name", 12, "str"), ("domain-name", 15, "str"), ("ntp-servers", 42
         ("mtu", 26, "u16"), ("broadcast", 28, "ip"), ("class-id", 60, "str"), ("arp-timeout", 35, "dur"),
         ("routers", 3, "iplist"), ("dns-servers", 6, "iplist"), ("netmask", 1, "ip"), ("time-offset", 2, "i32"),
         ("captive-portal", 114, "str"), ("wpad-url", 252, "str"), ("user-class", 77, "str"),
-        ("lease-time", 51, "dur"), ("lease-time", 51, "dur")]
+        ("lease-time", 51, "dur"), ("lease-time", 51, "dur"), ("routes", 121, "routes"), ("log-servers", 7, "iplist")]
 
 
 def gen_value(rng, kind, allow_null=True):
@@ -23,11 +23,19 @@ def gen_value(rng, kind, allow_null=True):
         s = rng.choice(["a", "host1", "example.org", "x" * rng.randrange(1, 20), "MSFT 5.0"])
         return '"%s"' % s, s.encode()
     if kind == "iplist":
-        l = [rng.choice([0xc0000201, 0x08080808, rng.randrange(1, 2 ** 32)]) for _ in range(rng.randrange(0, 3))]
-        return "[%s]" % ", ".join(ip(x) for x in l), b"".join(x.to_bytes(4, "big") for x in l)
+        l = [rng.choice([0xc0000201, 0x08080808, 0, 0, rng.randrange(1, 2 ** 32)]) for _ in range(rng.randrange(0, 3))]
+        return "[%s]" % ", ".join(ip(x) if x else rng.choice(['"$self4"', "0.0.0.0"]) for x in l), b"".join(x.to_bytes(4, "big") for x in l)
     if kind == "ip":
-        x = rng.choice([0xc00002ff, rng.randrange(1, 2 ** 32)])
-        return ip(x), x.to_bytes(4, "big")
+        x = rng.choice([0xc00002ff, 0, rng.randrange(1, 2 ** 32)])
+        return (ip(x) if x else '"$self4"'), x.to_bytes(4, "big")
+    if kind == "routes":
+        l = []
+        for _ in range(rng.randrange(0, 3)):
+            ln = rng.choice([0, 8, 24, 32])
+            net = rng.randrange(2 ** 32) & ~(2 ** (32 - ln) - 1) & 0xffffffff
+            nh = rng.choice([0, 0xc0000201, rng.randrange(1, 2 ** 32)])
+            l.append("{ prefix: %s/%d, next-hop: %s }" % (ip(net), ln, ip(nh) if nh else '"$self4"'))
+        return "[%s]" % ", ".join(l), None
     if kind == "u8":
         x = rng.randrange(256)
         return str(x), bytes([x])
@@ -168,7 +176,7 @@ def gen_packet(rng, ctx, clients):
         opts[61] = c["cid"]
     pl = set()
     for _ in range(rng.randrange(0, 10)):
-        pl.add(rng.choice([1, 3, 6, 12, 15, 23, 26, 28, 35, 42, 51, 60, 114, 119, 252, 2, 77, rng.randrange(1, 255)]))
+        pl.add(rng.choice([1, 3, 6, 7, 12, 15, 23, 26, 28, 35, 42, 51, 60, 114, 119, 121, 252, 2, 77, rng.randrange(1, 255)]))
     if rng.random() < 0.85:
         opts[55] = bytes(sorted(pl))
     # requested address
